@@ -242,4 +242,15 @@ func init() {
 		{Name: "fitted-stride-dropped", File: "align/fitted_letters.go", Find: "\t\t\tupScore := table[p-c] + la[rVal*let]\n", Replace: "\t\t\tupScore := table[p-c] + la[rVal]\n", Rule: "stride", Key: "align.(Fitted).alignLetters/matrix-subscript reference"},
 		{Name: "benign-row-offset-in-local", File: "align/nw_letters.go", Find: "\t\t\tdiagScore := table[p-c-1] + la[rVal*let+qVal]\n\t\t\tupScore := table[p-c] + la[rVal*let]\n", Replace: "\t\t\trow := rVal * let\n\t\t\tdiagScore := table[p-c-1] + la[row+qVal]\n\t\t\tupScore := la[row] + table[p-c]\n", More: []edit{{"align/nw_qletters.go", "\t\t\tdiagScore := table[p-c-1] + la[rVal*let+qVal]\n\t\t\tupScore := table[p-c] + la[rVal*let]\n", "\t\t\trow := rVal * let\n\t\t\tdiagScore := table[p-c-1] + la[row+qVal]\n\t\t\tupScore := la[row] + table[p-c]\n"}}},
 	}
+	const piler = "align/pals/piler.go"
+	selftests["C16"] = []variant{
+		{Name: "merge-drops-absorbed-images", File: piler, Find: "\t\t\tpi.images = append(pi.images, iv.images...)\n", Replace: "\t\t\t_ = iv.images\n", Rule: "pilemerge", Key: "images-carried-over"},
+		{Name: "merge-skips-delete-for-single-match", File: piler, Find: "\tfor _, d := range r {\n\t\tt.Delete(d, false)\n\t}\n", Replace: "\tif len(r) > 1 {\n\t\tfor _, d := range r {\n\t\t\tt.Delete(d, false)\n\t\t}\n\t}\n", Rule: "pilemerge", Key: "matches-deleted"},
+		{Name: "merge-end-not-extended", File: piler, Find: "\t\t\tpi.end = max(iv.end, pi.end)\n", Replace: "", Rule: "pilemerge", Key: "span-is-union"},
+		{Name: "merge-inserts-into-fresh-tree", File: piler, Find: "\tt.Insert(pi, false)\n", Replace: "\tt = &interval.IntTree{}\n\tp.intervals[pi.location] = t\n\tt.Insert(pi, false)\n", Rule: "pilemerge", Key: "merged-inserted"},
+		{Name: "add-looks-up-one-orientation-twice", File: piler, Find: "\tif _, ok := p.seen[ba]; ok {\n", Replace: "\t_ = ba\n\tif _, ok := p.seen[ab]; ok {\n", Rule: "pileadd", Key: "duplicate-lookup-both-orientations"},
+		{Name: "add-merges-first-feature-before-second-lookup", File: piler, Find: "\tif _, ok := p.seen[ba]; ok {\n\t\treturn duplicatePair\n\t}\n\n\tp.merge(&pileInterval{id: p.nextID(), start: fp.A.Start(), end: fp.A.End(), location: fp.A.Location(), images: []*Feature{fp.A}, overlap: p.overlap})\n", Replace: "\tp.merge(&pileInterval{id: p.nextID(), start: fp.A.Start(), end: fp.A.End(), location: fp.A.Location(), images: []*Feature{fp.A}, overlap: p.overlap})\n\tif _, ok := p.seen[ba]; ok {\n\t\treturn duplicatePair\n\t}\n\n", Rule: "pileadd", Key: "duplicate-verdict-before-merge"},
+		{Name: "add-does-not-record-pair", File: piler, Find: "\tp.seen[ab] = struct{}{}\n", Replace: "\t_ = ab\n", Rule: "pileadd", Key: "pair-recorded-on-success"},
+		{Name: "benign-start-min-over-all-matches", File: piler, Find: "\t\t\tif f {\n\t\t\t\tpi.start = min(iv.start, pi.start)\n\t\t\t\tf = false\n\t\t\t}\n", Replace: "\t\t\tpi.start = min(iv.start, pi.start)\n", More: []edit{{piler, "\t\tf  = true\n", ""}}},
+	}
 }
